@@ -231,6 +231,28 @@ func checkSentinelLoop(p *Program, r *Result, fn *ssa.Function, callee string) {
 		}
 	}
 	if loop == nil {
+		// no loop at all: the only stanza of a one-stanza header is handed to unwrap and whatever
+		// it returns is the result (`if len(stanzas) == 1 { return i.unwrap(stanzas[0]) }`);
+		// with nothing to pass over there is nothing to continue on
+		if len(fn.Params) >= 2 {
+			facts := tb.FactsAt(call.Block())
+			_, single := hasFactShort(facts, "len(P1) == 1")
+			argOK := len(call.Common().Args) > 0 && short(tb.Term(call.Common().Args[len(call.Common().Args)-1]).String()) == "Elem(P1, 0)"
+			forwards := false
+			for _, ret := range returnsOf(fn) {
+				if len(ret.Results) != 2 {
+					continue
+				}
+				k, e := tb.Term(ret.Results[0]), tb.Term(ret.Results[1])
+				if k.Op == "Ext" && e.Op == "Ext" && k.S == "0" && e.S == "1" && k.Args[0].V == call.Value() && e.Args[0].V == call.Value() && (ret.Block() == call.Block() || call.Block().Dominates(ret.Block())) {
+					forwards = true
+				}
+			}
+			if single && argOK && forwards {
+				r.OK(fn.String(), "sentinel-loop", r.pos(call), "one-stanza header: the stanza is handed to unwrap and its result returned as it is")
+				return
+			}
+		}
 		r.Unk(fn.String(), "sentinel-loop", r.pos(call), "the unwrap call is not inside a recognised range loop")
 		return
 	}
